@@ -239,6 +239,24 @@ pub fn run(ctx: &Ctx) -> i32 {
     }
     part
   });
+  let mut total = total;
+  {
+    let pos = exponent_sweep_positions();
+    let chunk = 128usize;
+    let sweep = par_jobs((pos.len() + chunk - 1) / chunk, |job| {
+      let mut part = Part::new();
+      for &(lon, lat) in &pos[job * chunk..((job + 1) * chunk).min(pos.len())] {
+        for d in 0..30u8 {
+          part.stratum("exponent-sweep", 1, 1);
+          if let Some(v) = check(d, lon, lat, None, &mut part) {
+            part.viol(v);
+          }
+        }
+      }
+      part
+    });
+    total.merge(sweep);
+  }
   finish(
     ctx,
     total,
